@@ -674,7 +674,7 @@ func runC04(c *Ctx) error {
 	return nil
 }
 
-// c04Directed (finding C04-0, notes/hunt/C04 find1): a rerunner whose computation ends its goroutine in the middle of
+// c04Directed (finding C04-1, notes/hunt/C04 find1): a rerunner whose computation ends its goroutine in the middle of
 // an invalidation's walk over the dependants must not keep the rerunners after it from being re-run.
 func c04Directed(c *Ctx) {
 	rep := c.Rep
